@@ -2,7 +2,9 @@
 untyped nodes - decided on the CFG of the normal form of validate_pipeline, helper inlined; the compatibility
 test accepts only what the run-time gate accepts), D4 (created keys are written whatever the context holds),
 D5 (abstract context state updated completely, after the node's own parameters were classified; the
-deleted-key availability test reads the state at node entry)."""
+deleted-key availability test reads the state at node entry), D3 converse (the run-time gate rejects only
+what the compatibility test rejects), D6 (run time and inspection enumerate the same kinds of `_process_logic`
+parameters)."""
 from __future__ import annotations
 
 import ast
@@ -75,6 +77,8 @@ def run(repo: Repo, R: Report) -> None:
     _type_flow_rules(repo, R)
     # ------------------------------------------------------------------ D4
     _created_keys_written(repo, R)
+    # ------------------------------------------------------------------ D6
+    _parameter_universe(repo, R)
 
     # ------------------------------------------------------------------ D5
     r_state = R.rule("C02-D5-context-state", "per node, after its own parameters were classified: every created key (incl. a probe's context_key) is recorded as produced by *this* node and un-deleted; suppressed keys of context processors become deleted; classification reads the live key_origin/deleted_keys", 7)
@@ -447,6 +451,7 @@ def _type_flow_rules(repo: Repo, R: Report) -> None:
 
     _validate_raises(repo, R, r_flow)
     _compat_rule(repo, R)
+    _gate_accepts_compatible(repo, R)
 
 
 def _targets(st: ast.AST) -> List[ast.AST]:
@@ -789,3 +794,335 @@ def _reads_content(e: ast.AST, tainted: Set[str], base: Optional[Set[str]] = Non
         if isinstance(n, (ast.Name, ast.Attribute)) and dotted_name(n) in tainted:
             return True
     return False
+
+
+# =====================================================================================================
+# D3 (converse): the run-time gate lets through everything the compatibility test accepts
+# =====================================================================================================
+def _local_defs(fn: ast.AST):
+    """(single-assignment locals of *fn*, resolver) - a named sub-expression reads like the expression itself."""
+    from ._chains import _resolved, _single_defs
+
+    defs = _single_defs(fn)
+    return defs, (lambda e: _resolved(e, defs))
+
+
+def _gate_accepts_compatible(repo: Repo, R: Report) -> None:
+    """validation accepts `issubclass(out, in)`; under the stated assumption that a node's data is an instance
+    of the declared output type, `issubclass(type(data), in)` then holds at the next typed node.  So no
+    rejection (`raise TypeError`) of a node's run path may be reachable while that test holds: a second,
+    stricter condition on the data type is a failure validation cannot predict."""
+    from ..normal import nfunc
+
+    r = R.rule("C02-D3-gate-rejects-only-incompatible", "in the run path of a node (_process / _process_single_item_with_context in pipeline/nodes/nodes.py) a `raise TypeError` (in the function that tests the data type: any `raise`) is reachable only over a branch on which issubclass(type(payload.data), processor.input_data_type()) is false: data whose type validation accepted (equal to or a subclass of the declared input type) is never rejected at run time by an additional type condition", 1)
+    repo.func(NODES, "_DataNode._process")  # anchor
+    mod = repo.module(NODES)
+    for qn, f0 in list(mod.defs.items()):
+        if not isinstance(f0, FuncNode) or qn.rsplit(".", 1)[-1] not in ("_process", "_process_single_item_with_context"):
+            continue
+        f = nfunc(repo, NODES, qn, copyprop="all")
+        g = CFG(f, may_raise=lambda part: set())
+
+        def is_type_error(st: ast.AST) -> bool:
+            if not isinstance(st, ast.Raise) or st.exc is None:
+                return False
+            t = st.exc.func if isinstance(st.exc, ast.Call) else st.exc
+            return (dotted_name(t) or "").split(".")[-1] == "TypeError"
+
+        rejects = [n for n in g.nodes if n.kind == "stmt" and is_type_error(n.ast)]
+        if not rejects and qn != "_DataNode._process":
+            continue
+        payload = f.args.args[1].arg if len(f.args.args) > 1 else "payload"
+        _defs, resolved = _local_defs(f)
+
+        def gate(e: ast.AST) -> Optional[bool]:
+            """issubclass(type(<payload>.data), <...>.input_data_type()) / isinstance(<payload>.data, ...)"""
+            if not (isinstance(e, ast.Call) and isinstance(e.func, ast.Name) and e.func.id in ("issubclass", "isinstance") and len(e.args) == 2 and not e.keywords):
+                return None
+            a, b = e.args
+            if e.func.id == "issubclass":
+                if isinstance(a, ast.Call) and isinstance(a.func, ast.Name) and a.func.id == "type" and len(a.args) == 1 and not a.keywords:
+                    a = a.args[0]
+                elif isinstance(a, ast.Attribute) and a.attr == "__class__":
+                    a = a.value
+                else:
+                    return None
+            declared = isinstance(b, ast.Call) and isinstance(b.func, ast.Attribute) and b.func.attr == "input_data_type" and not b.args and not b.keywords
+            return True if declared and dotted_name(a) == f"{payload}.data" else None
+
+        not_gate = _neg(gate)
+        blocked: Set[Tuple[int, str]] = set()
+        gates = 0
+        for n in g.nodes:
+            if n.kind in ("if", "while") and n.part is not None:
+                e = resolved(n.part)
+                gates += any(gate(x) for x in ast.walk(e))
+                if _implies(e, not_gate, True):
+                    blocked.add((n.id, "T"))
+                if _implies(e, not_gate, False):
+                    blocked.add((n.id, "F"))
+        if gates:
+            # the function that implements the gate rejects for no other reason (whatever the exception class)
+            rejects = [n for n in g.nodes if n.kind == "stmt" and isinstance(n.ast, ast.Raise) and n.ast.exc is not None]
+        seen = g.reach([g.entry], blocked_edges=blocked)
+        bad = sorted((n for n in rejects if n.id in seen), key=lambda n: n.line)
+        for n in bad:
+            R.violation(r, NODES, qn, norm(n.ast)[:90], f"this rejection can be reached although issubclass(type({payload}.data), processor.input_data_type()) holds ({gates} test(s) of that condition found): data of a type validation accepts (declared output equal to or a subclass of the declared input type, e.g. NoDataType into a BaseDataType consumer) raises TypeError at run time", n.line, path=g.path_to(seen, n.id))
+        if not bad:
+            R.ok(r, NODES, qn, f"{len(rejects)} rejecting `raise` statement(s), each only behind a failed issubclass(type(data), input_type)", "", f0.lineno)
+
+
+# =====================================================================================================
+# D6: run time and inspection enumerate the same processing parameters
+# =====================================================================================================
+DATAPROC = "semantiva/data_processors/data_processors.py"
+CTXPROC = "semantiva/context_processors/context_processors.py"
+_KINDS = ("POSITIONAL_ONLY", "POSITIONAL_OR_KEYWORD", "VAR_POSITIONAL", "KEYWORD_ONLY", "VAR_KEYWORD")
+_UNK = ("?",)
+
+
+class _KindEval:
+    """Three-valued evaluation of a filter over one element of `inspect.signature(f).parameters` whose kind is
+    *kind* and whose name is a generic one (a name no exclusion list mentions).  Values: ("kind", K),
+    ("name",), ("str", s), ("bool", b), ("coll", [values], complete), ("given",) for a collection handed in
+    by the caller (an exclusion list), _UNK."""
+
+    def __init__(self, pvar: Optional[str], nvar: Optional[str], kind: str, params: Set[str], consts: Dict[str, ast.AST]):
+        self.pvar, self.nvar, self.kind, self.params, self.consts = pvar, nvar, kind, params, consts
+        self.not_understood: List[ast.AST] = []
+
+    def _kindish(self, e: ast.AST) -> bool:
+        return any(isinstance(x, ast.Attribute) and (x.attr in _KINDS or (x.attr == "kind" and _is_name(x.value, self.pvar))) for x in ast.walk(e))
+
+    def unknown(self, e: ast.AST):
+        """an undecided sub-expression: a property of the parameter itself (default / annotation: the filter then
+        *depends* on it) or something not understood (kind test in an unknown form, foreign collection)"""
+        own = any(isinstance(x, ast.Attribute) and _is_name(x.value, self.pvar) and x.attr in ("default", "annotation") for x in ast.walk(e))
+        if self._kindish(e) or not own:
+            self.not_understood.append(e)
+        return _UNK
+
+    def val(self, e: ast.AST, depth: int = 0):
+        if isinstance(e, ast.Attribute):
+            if _is_name(e.value, self.pvar) and e.attr == "kind":
+                return ("kind", self.kind)
+            if _is_name(e.value, self.pvar) and e.attr == "name":
+                return ("name",)
+            if e.attr in _KINDS:
+                return ("kind", e.attr)
+            return _UNK
+        if isinstance(e, ast.Name):
+            if e.id == self.nvar:
+                return ("name",)
+            if e.id in self.params:
+                return ("given",)
+            if e.id in self.consts and depth < 4:
+                return self.val(self.consts[e.id], depth + 1)
+            return _UNK
+        if isinstance(e, ast.Constant):
+            if isinstance(e.value, bool):
+                return ("bool", e.value)
+            if isinstance(e.value, str):
+                return ("str", e.value)
+            return _UNK
+        if isinstance(e, (ast.Set, ast.Tuple, ast.List)):
+            vs = [self.val(x, depth) for x in e.elts]
+            return ("coll", [v for v in vs if v is not _UNK], all(v is not _UNK for v in vs))
+        if isinstance(e, ast.Call) and call_name(e) in ("set", "frozenset", "tuple", "list") and len(e.args) == 1 and not e.keywords:
+            v = self.val(e.args[0], depth)
+            return v if v[0] in ("coll", "given") else _UNK
+        if isinstance(e, ast.Call) and call_name(e) in ("set", "frozenset", "tuple", "list") and not e.args and not e.keywords:
+            return ("coll", [], True)
+        if isinstance(e, (ast.Compare, ast.BoolOp, ast.UnaryOp, ast.IfExp)):
+            t = self.truth(e, depth)
+            return _UNK if t is None else ("bool", t)
+        return _UNK
+
+    def truth(self, e: ast.AST, depth: int = 0) -> Optional[bool]:
+        if isinstance(e, ast.Constant) and isinstance(e.value, bool):
+            return e.value
+        if isinstance(e, ast.UnaryOp) and isinstance(e.op, ast.Not):
+            t = self.truth(e.operand, depth)
+            return None if t is None else (not t)
+        if isinstance(e, ast.BoolOp):
+            ts = [self.truth(v, depth) for v in e.values]
+            if isinstance(e.op, ast.And):
+                return False if any(t is False for t in ts) else (True if all(t is True for t in ts) else None)
+            return True if any(t is True for t in ts) else (False if all(t is False for t in ts) else None)
+        if isinstance(e, ast.IfExp):
+            t = self.truth(e.test, depth)
+            if t is None:
+                a, b = self.truth(e.body, depth), self.truth(e.orelse, depth)
+                return a if a == b else None
+            return self.truth(e.body if t else e.orelse, depth)
+        if isinstance(e, ast.Compare) and len(e.ops) == 1:
+            op = e.ops[0]
+            l, c = self.val(e.left, depth), self.val(e.comparators[0], depth)
+            if isinstance(op, (ast.In, ast.NotIn)):
+                res: Optional[bool] = None
+                if l is not _UNK and c[0] == "coll":
+                    res = True if l in c[1] else (False if c[2] else None)
+                elif l == ("name",) and c[0] == "given":
+                    res = False  # a generic parameter name is in no exclusion list
+                if res is None:
+                    self.unknown(e)
+                    return None
+                return res if isinstance(op, ast.In) else (not res)
+            if isinstance(op, (ast.Is, ast.IsNot, ast.Eq, ast.NotEq)):
+                if l is _UNK or c is _UNK or l[0] in ("coll", "given") or c[0] in ("coll", "given"):
+                    self.unknown(e)
+                    return None
+                res = l == c
+                return res if isinstance(op, (ast.Is, ast.Eq)) else (not res)
+        if isinstance(e, ast.Name) and e.id in self.consts and depth < 4:
+            return self.truth(self.consts[e.id], depth + 1)
+        self.unknown(e)
+        return None
+
+
+def _module_consts(repo: Repo, rel: str) -> Dict[str, ast.AST]:
+    """module-level names bound exactly once by a plain assignment"""
+    out: Dict[str, List[ast.AST]] = {}
+    for st in repo.module(rel).tree.body:
+        if isinstance(st, ast.Assign) and len(st.targets) == 1 and isinstance(st.targets[0], ast.Name):
+            out.setdefault(st.targets[0].id, []).append(st.value)
+        elif isinstance(st, ast.AnnAssign) and isinstance(st.target, ast.Name) and st.value is not None:
+            out.setdefault(st.target.id, []).append(st.value)
+    return {k: v[0] for k, v in out.items() if len(v) == 1}
+
+
+def _signature_elements(it: ast.AST, target: ast.AST) -> Optional[Tuple[Optional[str], Optional[str]]]:
+    """(element variable, name variable) when *it* iterates the parameters of a signature:
+    `<sig>.parameters.values()` -> (p, None); `<sig>.parameters.items()` -> (p, n)."""
+    if not (isinstance(it, ast.Call) and isinstance(it.func, ast.Attribute) and not it.args and isinstance(it.func.value, ast.Attribute) and it.func.value.attr == "parameters"):
+        return None
+    if it.func.attr == "values" and isinstance(target, ast.Name):
+        return target.id, None
+    if it.func.attr == "items" and isinstance(target, ast.Tuple) and len(target.elts) == 2 and all(isinstance(x, ast.Name) for x in target.elts):
+        return target.elts[1].id, target.elts[0].id
+    return None
+
+
+def _kind_filter(repo: Repo, rel: str, qn: str) -> Tuple[Dict[str, str], ast.AST]:
+    """For the function's enumeration of signature parameters whose result it returns: per parameter kind
+    "keep" / "drop" / "depends" (on something other than the kind and a generic name), and the construct."""
+    from ..normal import nfunc
+
+    f = nfunc(repo, rel, qn, copyprop="all")
+    defs, resolved = _local_defs(f)
+    consts = _module_consts(repo, rel)
+    a = f.args
+    params = {x.arg for x in list(a.posonlyargs) + list(a.args) + list(a.kwonlyargs)}
+    returned: Set[str] = set()
+    ret_nodes: List[ast.AST] = []
+    for n in walk_no_nested(f):
+        if isinstance(n, ast.Return) and n.value is not None:
+            ret_nodes.append(n.value)
+            returned |= _names_of(n.value) | _names_of(resolved(n.value))
+
+    def is_name(e: ast.AST, pvar: Optional[str], nvar: Optional[str]) -> bool:
+        return (nvar is not None and _is_name(e, nvar)) or _is_attr_of(e, pvar, "name")
+
+    def mentions_name(e: ast.AST, pvar, nvar) -> bool:
+        return any(is_name(x, pvar, nvar) for x in ast.walk(e))
+
+    found: List[Tuple[Dict[str, str], ast.AST]] = []
+    # -- loop form
+    for lp in walk_no_nested(f):
+        if not isinstance(lp, ast.For):
+            continue
+        el = _signature_elements(resolved(lp.iter), lp.target)
+        if el is None:
+            continue
+        pvar, nvar = el
+        collects: List[ast.AST] = []
+        for n in walk_no_nested(lp):
+            if isinstance(n, ast.Call) and isinstance(n.func, ast.Attribute) and n.func.attr in ("append", "add") and isinstance(n.func.value, ast.Name) and n.func.value.id in returned and n.args and mentions_name(n.args[0], pvar, nvar):
+                collects.append(stmt_of(n))
+            elif isinstance(n, (ast.Assign, ast.AnnAssign)):
+                for t in _targets(n):
+                    if isinstance(t, ast.Subscript) and isinstance(t.value, ast.Name) and t.value.id in returned and is_name(t.slice, pvar, nvar):
+                        collects.append(n)
+            elif isinstance(n, (ast.Yield,)) and n.value is not None and mentions_name(n.value, pvar, nvar):
+                collects.append(stmt_of(n))
+        if not collects:
+            continue
+        g = CFG(f, may_raise=lambda part: set())
+        heads = set(g.nodes_for(lp))
+        inloop = {n.id for n in g.nodes if n.ast is not None and _inside(n.ast, lp)} - heads
+        entries = [t for h in heads for t, lab in g.succ[h] if lab == "T"]
+        cn = {nid for st in collects for nid in g.nodes_for(st)}
+        table: Dict[str, str] = {}
+        for k in _KINDS:
+            ev = _KindEval(pvar, nvar, k, params, consts)
+            blocked: Set[Tuple[int, str]] = set()
+            for n in g.nodes:
+                if n.id in inloop and n.kind in ("if", "while") and n.part is not None:
+                    t = ev.truth(resolved(n.part))
+                    if t is True:
+                        blocked.add((n.id, "F"))
+                    elif t is False:
+                        blocked.add((n.id, "T"))
+            saved = {h: g.succ[h] for h in heads}
+            for h in heads:
+                g.succ[h] = []
+            try:
+                seen = g.reach(entries, blocked_edges=blocked)
+                may_keep = bool(cn & set(seen))
+                # an iteration that ends (next element / out of the loop) without passing a collecting statement
+                starts = [e for e in entries if e not in cn]
+                skipping = g.reach(starts, blocked=cn, blocked_edges=blocked)
+                may_skip = any(x in heads or x not in inloop for x in skipping)
+            finally:
+                for h, v in saved.items():
+                    g.succ[h] = v
+            table[k] = "drop" if not may_keep else ("depends" if may_skip else "keep")
+            if table[k] == "depends" and ev.not_understood:
+                raise AnalysisError(f"{qn}: whether a {k} parameter is kept depends on a test that is not understood: `{ast.unparse(ev.not_understood[0])[:80]}`")
+        found.append((table, lp))
+    # -- comprehension form
+    for n in walk_no_nested(f):
+        if not isinstance(n, (ast.ListComp, ast.SetComp, ast.DictComp, ast.GeneratorExp)) or len(n.generators) != 1:
+            continue
+        gen = n.generators[0]
+        el = _signature_elements(resolved(gen.iter), gen.target)
+        if el is None:
+            continue
+        pvar, nvar = el
+        key = n.key if isinstance(n, ast.DictComp) else n.elt
+        if not mentions_name(key, pvar, nvar):
+            continue
+        st = stmt_of(n)
+        is_returned = isinstance(st, ast.Return) or (isinstance(st, (ast.Assign, ast.AnnAssign)) and any(isinstance(t, ast.Name) and t.id in returned for t in _targets(st)))
+        if not is_returned:
+            continue
+        table = {}
+        for k in _KINDS:
+            ev = _KindEval(pvar, nvar, k, params, consts)
+            ts = [ev.truth(resolved(c)) for c in gen.ifs]
+            table[k] = "drop" if any(t is False for t in ts) else ("keep" if all(t is True for t in ts) else "depends")
+            if table[k] == "depends" and ev.not_understood:
+                raise AnalysisError(f"{qn}: whether a {k} parameter is kept depends on a test that is not understood: `{ast.unparse(ev.not_understood[0])[:80]}`")
+        found.append((table, n))
+    if len(found) != 1:
+        raise AnalysisError(f"{qn}: {len(found)} enumerations of signature parameters feed the returned value (1 expected); shape not recognised")
+    return found[0]
+
+
+def _parameter_universe(repo: Repo, R: Report) -> None:
+    r = R.rule("C02-D6-same-parameter-universe", "per processor family, the enumeration of `_process_logic` parameters that run time resolves (get_processing_parameter_names) and the one inspection classifies (the `parameters` metadata built by _retrieve_parameter_details; also where defaults are looked up) keep the same kinds of inspect.Parameter: a parameter the node resolves at run time is one inspection classified (else its context requirement is never reported and its default never found), and vice versa (else a key is reported as required that the node never reads)", 4)
+    for rel, cls in ((DATAPROC, "_BaseDataProcessor"), (CTXPROC, "ContextProcessor")):
+        rt_q, in_q = f"{cls}.get_processing_parameter_names", f"{cls}._retrieve_parameter_details"
+        rt_f, in_f = repo.func(rel, rt_q), repo.func(rel, in_q)
+        rt, rt_at = _kind_filter(repo, rel, rt_q)
+        ins, in_at = _kind_filter(repo, rel, in_q)
+        # the metadata is built from the processing method itself
+        md_q = f"{cls}._define_metadata"
+        md = repo.func(rel, md_q)
+        feeds = [c for c in calls_in(md) if call_attr(c) == "_retrieve_parameter_details" and c.args and isinstance(c.args[0], ast.Attribute) and c.args[0].attr == "_process_logic"]
+        R.check(bool(feeds), r, rel, md_q, "parameters metadata = _retrieve_parameter_details(cls._process_logic, ...)", "the `parameters` metadata inspection classifies is not built from the signature of _process_logic, the method whose parameters run time resolves", md.lineno)
+        lost = [k for k in _KINDS if rt[k] != "drop" and ins[k] != "keep"]
+        extra = [k for k in _KINDS if ins[k] != "drop" and rt[k] != "keep" and k not in lost]
+        shown = lambda t: ", ".join(f"{k}:{t[k]}" for k in _KINDS)  # noqa: E731
+        R.check(not lost, r, rel, in_q, "keeps every parameter kind run time resolves", f"parameters of kind {', '.join(lost)} are resolved at run time ({rt_q}: {shown(rt)}) but `{norm(in_at)[:70]}` does not (always) enter them into the `parameters` metadata ({shown(ins)}): inspection neither classifies them nor reports the context key they need, their declared default is not found - an accepted configuration whose initial context holds every reported key fails with 'Unable to resolve parameter'", getattr(in_at, "lineno", in_f.lineno))
+        R.check(not extra, r, rel, rt_q, "resolves every parameter kind inspection classifies", f"parameters of kind {', '.join(extra)} are classified by inspection ({in_q}: {shown(ins)}) but `{norm(rt_at)[:70]}` does not (always) resolve them at run time ({shown(rt)}): inspection reports an origin / a required context key for a parameter the node never reads", getattr(rt_at, "lineno", rt_f.lineno))
